@@ -87,7 +87,8 @@ def prepare_batch(args):
         ocj = None
         if oc is not None:
             wobj = xe.type.open_content.any_element
-            ocj = {'mode': oc[0], 'wild': intro.walk(wobj)}
+            ocj = {'mode': oc[0], 'wild': intro.walk(wobj), 'pc': oc[2] if len(oc) > 2 else 'lax',
+                   'globals': [cm.split_qname(n) for n in schema.maps.elements]}
         if quick or fam in ('random', 'group-refs', 'open-content'):
             words = cm.word_set(rng, ast, alpha + foreign, 3 if len(alpha) < 3 else 2, maxlen + 2, 40)
         else:
@@ -127,6 +128,13 @@ def judge_batch(ctx: Ctx, drv: Optional[Driver], prepared) -> None:
             nontrivial = bool(w) and (len(cm.leaves(ast)) > 1 or (ast[2], ast[3]) != (1, 1))
             ctx.case(case, nontrivial, tag=f"{case['v']}/{fam}")
             ref = cm.ref_accepts_oc(ast, w, oc) if oc else cm.ref_accepts(ast, w)
+            if oc and len(oc) > 2 and oc[2] == 'strict' and 'o' in w:
+                # an undeclared child under a strict wildcard is an element-level error whatever the model says:
+                # the sequence must be rejected; the content-model comparison does not apply
+                ctx.count('strict-wildcard-undeclared-child')
+                if im['valid']:
+                    ctx.failure('undeclared child accepted under a strict open-content wildcard', case, im)
+                continue
             if 'q' in w:
                 # the abstract substitution-group member: XSD 1.0 processor refuses it at model level, the
                 # 1.1 processor matches it and refuses it at element level ("can't use an abstract element");
@@ -184,7 +192,9 @@ def families(ctx: Ctx):
         yield 'random', v11, rnd, ctx.pick(5, 6)
         refs = [cm.with_refs(rng, cm.random_model(rng, ['a', 'b', 'c'], v11=v11, allow_all=False)) for _ in range(ctx.pick(120, 2000))]
         yield 'group-refs', v11, [m for m in refs if 'ref' in repr(m)], 5
-    for oc in (('interleave', '##other'), ('suffix', '##other'), ('interleave', '##any'), ('suffix', '##any')):
+    for oc in (('interleave', '##other'), ('suffix', '##other'), ('interleave', '##any'), ('suffix', '##any'),
+               ('interleave', '##other', 'skip'), ('suffix', '##any', 'skip'), ('interleave', '##any', 'strict'),
+               ('interleave', '##other', 'strict'), ('suffix', '##other', 'strict')):
         rnd = [cm.random_model(rng, ['a', 'b'], max_depth=2, v11=True, any_p=0.0) for _ in range(ctx.pick(60, 1500))]
         yield ('open-content', oc), True, rnd, 4
 
